@@ -129,6 +129,21 @@ CLAIMED = {
               "z3 QF_BV",
     note=TB + "; unit contract contracts/units/gear102.py assumed; device-type list length bounded by 8, adversarial "
          "prefixes by 5 (termination for unbounded adversarial streams undecided)"),
+ "C13": dict(
+    category="proof",
+    text="The real SetEventSchemes, SetEventFilters, QueryEventFilters and query_input_value generators are executed "
+         "symbolically against an assumed IEC 62386-103 instance contract with every register symbolic (stale DTRs "
+         "included): resolutions 1..32 with symbolic value and padding reassemble exactly; 8-, 16- and 24-bit filter enums "
+         "(library and user-defined) with every flag combination are stored and read back exactly; schemes likewise, invalid "
+         "ones rejected before any command; one silence or framing error at any step yields None or DALISequenceError. The "
+         "discovery scan is verified with the loop rule on both of its loops: for an arbitrary device A and instance I the "
+         "map entry equals the instance type iff A was scanned, answered cleanly, is healthy, has instance I, I is enabled and "
+         "its type was read, and is unchanged otherwise; the scan is bracketed by START/STOP QUIESCENT MODE to broadcast.",
+    design_ref="DESIGN.md 6 (C13), 3.6, 3.7",
+    technique="contract-based deductive verification: generators verified as procedures against an assumed unit contract; "
+              "loop invariants (initiation / arbitrary iteration / exit) for the scan; z3 QF_BV",
+    note=TB + "; unit contracts contracts/units/device103.py and the ScanBus abstraction in checks/c13.py are assumed; "
+         "numberOfInstances <= 32; 'healthy' = short address not MASK and not in reset state"),
 }
 
 NA_REASON = "check under construction in this round (no obligations built yet); see DESIGN.md section 6"
